@@ -39,6 +39,14 @@ Theorem c14_excess_429 : forall c s e t a,
   (snd (allow c s t) = false -> login_step c s e t a = (s, {| status := 429; backend_called := false |})).
 Proof. intros. split; [apply login_step_429|apply login_step_refused]. Qed.
 
+(* ... and the order of the two calls in both entry points: an attempt whose lookup is performed has
+   been charged to the limiter BEFORE the lookup (what the backend would read off the limiter is the
+   bucket after this attempt's token was taken) *)
+Theorem c14_limiter_first : forall c s e t a,
+  backend_called (snd (login_step c s e t a)) = true ->
+  T (fst (login_step c s e t a)) = advance c s t - C c /\ last (fst (login_step c s e t a)) = t.
+Proof. exact limiter_first. Qed.
+
 (* both entry points, whatever the backend answers, consult the same limiter in arrival order *)
 Theorem c14_entry_points : forall c reqs s,
   map backend_called (login_run c s reqs) = decisions c s (map (fun r => snd (fst r)) reqs).
@@ -102,6 +110,74 @@ Proof.
   exists five_then_one. rewrite old_never_locks, new_locks.
   split; [repeat constructor|split; reflexivity].
 Qed.
+
+(* ---- the periodic cleanup pass as an operation of the throttle's state machine ---- *)
+
+(* every history of attempts and cleanup passes, at any times: a pass of the cleanup the code has
+   is invisible to the throttle — final entry and verdicts are those of the attempts alone, so
+   every statement above about `run` holds for the history with the passes taken out *)
+Theorem c14_cleanup_invisible : forall k esc ops s,
+  fst (run_ops k esc purge_never s ops) = fst (run k esc s (attempts_of ops)) /\
+  flat_map (fun x => match x with Some o => [o] | None => [] end) (snd (run_ops k esc purge_never s ops))
+    = snd (run k esc s (attempts_of ops)).
+Proof. exact run_ops_never. Qed.
+
+(* the stored counter is the number of consecutive evaluated failures as the property counts them
+   (ghost: +1 per evaluated failure, restart after the quiet period, 0 after an accepted code; the
+   ghost does not see the entry and ignores cleanup passes) *)
+Theorem c14_streak : forall k esc ops,
+  let r := run_ops k esc purge_never rl0 ops in
+  fail_count (fst r) = streak (ghost_run k ghost0 ops (snd r)).
+Proof. intros k esc ops. exact (proj1 (ghost_agree k esc ops rl0 ghost0 eq_refl eq_refl)). Qed.
+
+(* lock-out, history form: after ANY history of attempts and cleanup passes, the evaluated failure
+   that makes the number of consecutive failures every*n locks verification until n hours later:
+   whatever is tried before that instant, with any number of cleanup passes at any times in
+   between, is refused unevaluated *)
+Theorem c14_lockout_history : forall k pre t v post n,
+  0 < every k -> 0 < n ->
+  let r1 := run_ops k true purge_never rl0 pre in
+  let g1 := ghost_run k ghost0 pre (snd r1) in
+  let a := attempt k true (fst r1) t v in
+  snd a = EvalFail -> streak (ghost_step k g1 t EvalFail) = every k * n ->
+  (forall t2 v2, In (Att t2 v2) post -> t2 < t + n * HOUR) ->
+  lockout (fst a) = t + n * HOUR /\
+  Forall (fun x => unevaluated x = true) (snd (run_ops k true purge_never (fst a) post)).
+Proof. exact lockout_history. Qed.
+
+(* users stay independent when cleanup passes (which visit every entry) are interleaved *)
+Theorem c14_cleanup_per_user : forall k esc pol u ops m,
+  fst (run_users_ops k esc pol m ops) u = fst (run_ops k esc pol (m u) (uops_of u ops)).
+Proof. exact run_users_ops_proj. Qed.
+
+(* a cleanup that drops "idle" entries (lock-out over, last check older than the spacing) would
+   restart the count: six evaluated failures within 12 s, the ghost counts six in a row, and no
+   lock-out — while with the code's cleanup the sixth is refused *)
+Theorem c14_purging_cleanup_refuted : exists ops,
+  let r := run_ops k_prop true purge_idle rl0 ops in
+  forallb (fun x => match x with None | Some EvalFail => true | _ => false end) (snd r) = true /\
+  streak (ghost_run k_prop ghost0 ops (snd r)) = 6 /\
+  nth_error (snd (run_ops k_prop true purge_never rl0 ops)) 6 = Some (Some RefusedLockout).
+Proof. exists purge_hist1. vm_compute. auto. Qed.
+
+(* ---- failCount is a uint32 ---- *)
+
+(* in every history from the empty entry the count never exceeds every*(reset_hours+1) (125 with
+   the constants of the code): the lock-out that follows that many failures is longer than the
+   quiet period after which the count restarts *)
+Theorem c14_count_bounded : forall k ops, 0 < every k -> 0 <= reset_hours k ->
+  0 <= fail_count (fst (run_ops k true purge_never rl0 ops)) <= every k * (reset_hours k + 1).
+Proof. intros k ops Hev Hr. exact (proj1 (count_bounded k Hev Hr ops rl0 (cnt_inv_rl0 k Hev Hr))). Qed.
+
+(* hence the machine counter never wraps: the model with the counter computed mod 2^32 IS the
+   model with the unbounded counter, on every history *)
+Theorem c14_uint32_exact : forall k ops, 0 < every k -> 0 <= reset_hours k ->
+  every k * (reset_hours k + 1) < W32 ->
+  run_ops32 k true purge_never rl0 ops = run_ops k true purge_never rl0 ops.
+Proof. intros k ops Hev Hr Hw. exact (run_ops32_eq k Hev Hr Hw ops rl0 (cnt_inv_rl0 k Hev Hr)). Qed.
+
+Example c14_uint32_k_prop : every k_prop * (reset_hours k_prop + 1) = 125 /\ 125 < W32.
+Proof. vm_compute. auto. Qed.
 
 (* non-vacuity *)
 Example c14_burst_then_429 :
